@@ -19,6 +19,7 @@ EXTENDS TGroupRules
 
 CONSTANTS Sizes,          \* numbers of participants of the created groups (ids 1..m)
           InitStatuses,   \* statuses the configured participants may carry
+          MaxInitIdle,    \* ... at most this many of them a status other than Active
           ArgIds,         \* ids the operations are called with (one of them unknown to every group)
           NewIds,         \* ids of the participants proposed by add_pending_participant
           Tokens,         \* results of the audit entries added
@@ -27,7 +28,8 @@ CONSTANTS Sizes,          \* numbers of participants of the created groups (ids 
 
 MCRoles == {[k |-> "Leader", p |-> LeaderFlags], [k |-> "Member", p |-> MemberFlags], [k |-> "Observer", p |-> {}]}
 MaxSize == CHOOSE m \in Sizes : \A k \in Sizes : k <= m
-PartSeqs(m) == {[i \in 1..m |-> [id |-> i, role |-> f[i].role, st |-> f[i].st]] : f \in [1..m -> [role : MCRoles, st : InitStatuses]]}
+PartSeqs(m) == {[i \in 1..m |-> [id |-> i, role |-> f[i].role, st |-> f[i].st]] :
+                  f \in {g \in [1..m -> [role : MCRoles, st : InitStatuses]] : Cardinality({i \in 1..m : g[i].st # "Active"}) <= MaxInitIdle}}
 Configs == UNION {{[t |-> t, parts |-> ps, parent |-> 0] : t \in 0..(m + 1), ps \in PartSeqs(m)} : m \in Sizes}
 Blank == [n |-> 0, t |-> 0, act |-> <<>>, pend |-> <<>>, ver |-> 0, audit |-> <<>>, parent |-> 0]
 
